@@ -25,8 +25,16 @@ PRE = [
     ["fndecl", "tf", [["n", "int"]], ["fun", ["int", "int"], "int"], [
         E(["bin", "+=", V("log"), ["array", V("n")]]),
         ret(["fn", [["a", "int"], ["b", "int"]], "int", [ret(["bin", "-", V("a"), V("b")])]])]],
+    ["fndecl", "tf1", [["n", "int"]], ["fun", ["int"], "int"], [
+        E(["bin", "+=", V("log"), ["array", V("n")]]),
+        ret(["fn", [["a", "int"]], "int", [ret(["bin", "+", V("a"), I(1)])]])]],
     ["fndecl", "tc", [["n", "int"], ["c", ["mut", "int"]]], ["mut", "int"], [E(["bin", "+=", V("log"), ["array", V("n")]]), ret(V("c"))]],
     ["set", "cell", ["expr", ["mut", None, I(100)]]],
+    # an iterator at a static type that is a UNION of iterator types (the planted `match` of `$+` / `$*`)
+    ["fndecl", "tu", [["n", "int"]], ["multi", ["fun", [], ["tup", "bool", "int"]], ["fun", [], ["tup", "bool", "float"]]], [
+        E(["bin", "+=", V("log"), ["array", V("n")]]), ret(["post", ["array", I(1), I(2), I(3)], "~"])]],
+    ["fndecl", "ti", [["n", "int"]], ["fun", [], ["tup", "bool", "int"]], [
+        E(["bin", "+=", V("log"), ["array", V("n")]]), ret(["post", ["array", I(1), I(2), I(3)], "~"])]],
 ]
 
 
@@ -101,6 +109,19 @@ def forms():
     out.append(("repeat.zero-len", ["repeat", T(1), I(0)], [1]))
     out.append(("eq.lit-arrays", ["bin", "==", ["array", T(1), T(2)], ["array", T(3)]], [1, 2, 3]))
     out.append(("array-of-array.at", ["at", ["at", ["array", ["array", T(1), T(2)], ["array", T(3)]], I(1)], I(0)], [1, 2, 3]))
+    # struct literals whose field names are not in alphabetical order: source order, not name order
+    out.append(("struct.names-unordered", ["struct", ["zero", T(1)], ["one", T(2)], ["two", T(3)]], [1, 2, 3]))
+    out.append(("struct.names-reversed", ["struct", ["c", T(1)], ["b", T(2)], ["a", T(3)]], [1, 2, 3]))
+    out.append(("struct.names-unordered.facc", ["facc", ["struct", ["y", T(1)], ["x", T(2)]], "x"], [1, 2]))
+    out.append(("struct.names-unordered.mixed", ["struct", ["z", T(1)], ["m", I(7)], ["a", T(3)]], [1, 3]))
+    # the operand of every postfix reducer is evaluated once (also where a dispatch on its type is planted)
+    for red in ("$+", "$*"):
+        out.append((f"reduce-postfix{red}.union-operand", ["post", ["call", V("tu"), I(1)], red], [1]))
+        out.append((f"reduce-postfix{red}.int-operand", ["post", ["call", V("ti"), I(1)], red], [1]))
+    for red in ("$&", "$|", "$]"):
+        out.append((f"reduce-postfix{red}", ["post", ["call", V("ti"), I(1)], red], [1]))
+    out.append(("typefilter.operand", ["post", ["tfilter", ["call", V("ti"), I(1)], "int"], "$]"], [1]))
+    out.append(("map.operands", ["post", ["bin", "@", ["call", V("ti"), I(1)], ["call", V("tf1"), I(2)]], "$]"], [1, 2]))
     out.append(("mul-zero", ["bin", "*", T(1), I(0)], [1]))
     out.append(("zero-mul", ["bin", "*", I(0), T(1)], [1]))
     out.append(("sub-self", ["bin", "-", T(1), T(1)], [1, 1]))
